@@ -839,7 +839,7 @@ func (p *PathConds) substSummary(call *ssa.Call, src []conj) (out []conj, ok boo
 		good := true
 		for _, l := range c {
 			var g2 bool
-			n, g2 = conjAdd(n, normLit(subst(l)))
+			n, g2 = conjAdd(n, normLit(foldPlus(subst(l))))
 			if !g2 {
 				good = false
 				break
@@ -850,6 +850,38 @@ func (p *PathConds) substSummary(call *ssa.Call, src []conj) (out []conj, ok boo
 		}
 	}
 	return out, ok
+}
+
+var plusChainRe = regexp.MustCompile(`\+(\d+)\+(\d+)\b`)
+
+// foldPlus adds up constant increments that substitution put next to each other (i+1 for i := j+1).
+func foldPlus(s string) string {
+	if !strings.Contains(s, "+") {
+		return s
+	}
+	var sb strings.Builder
+	last := 0
+	fold := func(part string) string {
+		for {
+			n := plusChainRe.ReplaceAllStringFunc(part, func(m string) string {
+				sm := plusChainRe.FindStringSubmatch(m)
+				a, _ := strconv.Atoi(sm[1])
+				b, _ := strconv.Atoi(sm[2])
+				return "+" + strconv.Itoa(a+b)
+			})
+			if n == part {
+				return n
+			}
+			part = n
+		}
+	}
+	for _, loc := range quotedRe.FindAllStringIndex(s, -1) {
+		sb.WriteString(fold(s[last:loc[0]]))
+		sb.WriteString(s[loc[0]:loc[1]])
+		last = loc[1]
+	}
+	sb.WriteString(fold(s[last:]))
+	return sb.String()
 }
 
 var errSumCache = map[*ssa.Function]*boolSummary{}
